@@ -690,9 +690,11 @@ Definition json_skel (c : list Z) : res unit :=
   if 0 <? len c then json_loop (length c) c 0 else Ok tt.
 
 (* ---- observables: the flat serialisation compared with the harness' Dump ------------------ *)
-Definition shash (s : list Z) : Z :=
-  fold_left (fun h b => (h * 16777619 + b + 1) mod 4294967296) s 2166136261.
-Definition dig (s : list Z) : list Z := [len s; shash s].
+(* digest of a byte string: length, sum of (byte+1), sum of the running sums (additions only: the
+   case files evaluate it on strings of 65535 bytes) *)
+Definition sums (s : list Z) : Z * Z :=
+  fold_left (fun ab x => let a := fst ab + x + 1 in (a, snd ab + a)) s (0, 0).
+Definition dig (s : list Z) : list Z := let ab := sums s in [len s; fst ab; snd ab].
 Definition flat_item (it : item) : list Z :=
   let '(k, nums, strs) := it in (k :: len nums :: nums) ++ (len strs :: flat_map dig strs).
 Definition flat_opt (o : option item) : list Z :=
